@@ -203,7 +203,7 @@ def gen_entities(rng, safe):
     aspaths = [dict(name=n, filters=[rng.choice(["65000", ".*", "6500[0-9]", "123"])
                                      for _ in range(rng.choice([1, 1, 2, 3]) if safe or rng.random() > 0.06 else 0)])
                for n in ASP]
-    rds = [dict(name=n, number=rng.randint(1, 4), members=["65000:%d" % rng.randint(1, 9)
+    rds = [dict(name=n, number=rng.randint(0, 4), members=["65000:%d" % rng.randint(1, 9)
                                                           for _ in range(rng.choice([1, 2, 3]) if safe or rng.random() > 0.06 else 0)])
            for n in RDS]
     return clists, plists, aspaths, rds
@@ -1122,6 +1122,13 @@ def oracle(case, r_cmp):
                                     what="parse_to_tree(output) differs from the block structure the lines were yielded in"))
             except Exception as e:  # noqa
                 out.append(dict(sig="nesting-parse-error:%s:%s" % (vendor, k), what="generated text does not parse: %r" % e))
+            # … and the same for what the REAL PartialGenerator.__call__ writes (the stream above is joined by the harness,
+            # token by token): the tree _run_partial_generator returns must hold every yielded row, whole, where it was yielded
+            if "ok" in p and sorted(_paths(p["ok"])) != sorted(_paths(exp)):
+                gp, ep = set(_paths(p["ok"])), set(_paths(exp))
+                out.append(dict(sig="generated-text-differs-from-yielded-rows:%s:%s" % (vendor, k),
+                                what="_run_partial_generator returns rows %r, the generator yielded %r" % (
+                                    sorted(gp - ep)[:3], sorted(ep - gp)[:3])))
     # ---- (3) refs subset of defs, when every generator completed
     if all(gens[k]["stream"].get("err") is None for k in GENS if "none" not in gens[k]["stream"]):
         pol = [t for path, t in gens["policy"]["stream"]["lines"] if path]
